@@ -446,9 +446,31 @@ class ParallelSpecFinder(Generic[ClassType1, ObjType1, ClassType2, ObjType2]):
             self._pi1.root_eq_label,
             self._pi2.root_eq_label,
             (set(), set()),
-        ):
+        ) and self._maps_are_matched(matching_info, sp1, sp2):
             return sp1, sp2
         return None
+
+    def _maps_are_matched(
+        self, matching_info: MatchingInfo, sp1: SpecMap, sp2: SpecMap
+    ) -> bool:
+        """Check that the two maps pair up: walking from the roots along the recorded
+        child orders, the rules assigned to every pair of labels met must be a
+        recorded matching of that pair."""
+        seen: Set[Tuple[int, int]] = set()
+        stack = [(self._pi1.root_eq_label, self._pi2.root_eq_label)]
+        while stack:
+            pair = stack.pop()
+            if pair in seen:
+                continue
+            seen.add(pair)
+            children1, children2 = sp1.get(pair[0]), sp2.get(pair[1])
+            if children1 is None or children2 is None or pair not in matching_info:
+                return False
+            order = matching_info[pair].get((children1, children2))
+            if order is None:
+                return False
+            stack.extend(zip((children1[i] for i in order), children2))
+        return True
 
     @staticmethod
     def _search_matching_info_init(
@@ -660,7 +682,7 @@ class EqPathParallelSpecFinder(
             self._pi1.root_eq_label,
             self._pi2.root_eq_label,
             (set(), set()),
-        ):
+        ) and self._maps_are_matched(matching_info, sp1, sp2):
             return sp1, sp2
         return None
 
@@ -724,6 +746,10 @@ class EqPathParallelSpecFinder(
         if children1 == () == children2:
             return self._atom_path_match(id1, id2, sp1, sp2)
         mem.add((id1, id2))
+        if (children1, children2) not in matching_info[(id1, id2)]:
+            # The two labels got their rules with other partners and these two
+            # rules were never matched with each other.
+            return False
         for j2, ((j1, child1), child2) in enumerate(
             zip(
                 (
